@@ -518,9 +518,13 @@ fn bind(p: &mut Parser<'_>) -> Result<BindSpec> {
 }
 
 fn visibility(p: &mut Parser<'_>) -> Result<Visibility> {
+	// `::` and `:::` are single tokens of the language, colons should not be separated by trivia
+	fn try_eat_adjacent_colon(p: &mut Parser<'_>) -> bool {
+		p.at(T![:]) && p.span_start() == p.span_end() && p.try_eat(T![:])
+	}
 	p.eat(T![:])?;
-	if p.try_eat(T![:]) {
-		if p.try_eat(T![:]) {
+	if try_eat_adjacent_colon(p) {
+		if try_eat_adjacent_colon(p) {
 			Ok(Visibility::Unhide)
 		} else {
 			Ok(Visibility::Hidden)
